@@ -37,6 +37,19 @@ def _flat(v):
         yield v
 
 
+def _is_out_param_store(fn, lhs):
+    """`*p = ...` / `r = ...` where p / r is a pointer / reference parameter"""
+    x = fn.e(lhs)
+    while x is not None and x["k"] in ("paren", "cast"):
+        x = fn.e(x["sub"])
+    if x is None:
+        return False
+    if x["k"] == "unop" and x["op"] == "*":
+        y = fn.e(fn.strip(x["sub"]))
+        return y is not None and y["k"] == "ref" and y.get("dk") == "parm"
+    return x["k"] == "ref" and x.get("dk") == "parm" and "&" in (x.get("ty") or "") + "".join(p["ty"] for p in fn.params if p["did"] == x.get("did"))
+
+
 def run(chk, fns, tables, rule="R-SENTINEL-TESTED", floor=4):
     """tables: qualified name -> (type string, value list) of the unit's namespace-scope constant tables"""
     chk.rule(rule, "every value loaded from a constant table that marks impossible combinations with the element type's all-ones value (other "
@@ -118,6 +131,7 @@ def run(chk, fns, tables, rule="R-SENTINEL-TESTED", floor=4):
         if not gen:
             continue
         bad = {}
+        delegated = set()
 
         def transfer(b, st, report=False):
             st = set(st)
@@ -150,6 +164,12 @@ def run(chk, fns, tables, rule="R-SENTINEL-TESTED", floor=4):
                         continue
                     if px is not None and px["k"] == "binop" and px["op"] == "=" and fn.strip(px["lhs"]) == el:
                         continue
+                    if px is not None and px["k"] == "binop" and px["op"] == "=" and fn.strip(px["rhs"]) == el and _is_out_param_store(fn, px["lhs"]):
+                        # handed to the caller through an out-parameter: accepted when the helper's result *is* the test (checked below)
+                        for t in st:
+                            if t[0] == x["did"]:
+                                delegated.add((t[1], x["did"]))
+                        continue
                     if report:
                         for t in st:
                             if t[0] == x["did"]:
@@ -161,6 +181,30 @@ def run(chk, fns, tables, rule="R-SENTINEL-TESTED", floor=4):
             st = ins.get(b)
             if st is not None:
                 transfer(b, st, report=True)
+        for site, did in sorted(delegated):
+            # every return of the helper is `v <cmp> constant` (or a constant false), and every caller branches on the call
+            rets_ok = True
+            for b, idx, r in fn.return_sites():
+                val = fn.e(r).get("val")
+                vx = fn.e(fn.strip(val)) if val is not None else None
+                if vx is not None and vx["k"] in ("bool", "int") and vx.get("cv") == 0:
+                    continue
+                if vx is None or cmp_var(vx) != did:
+                    rets_ok = False
+            callers_ok = True
+            ncall = 0
+            for h in fns:
+                conds = set()
+                for b in h.blocks.values():
+                    t = b.get("term")
+                    if t and t.get("cond"):
+                        conds |= set(h.walk(t["cond"]))
+                for ci, cx in h.calls(lambda cx: cx.get("callee") == fn.name):
+                    ncall += 1
+                    if ci not in conds:
+                        callers_ok = False
+            if not (rets_ok and callers_ok and ncall):
+                bad.setdefault(site, site)
         for site, (did, inst, i, nm) in gen.items():
             use = bad.get(site)
             chk.ob(rule, inst, use is None, loc=fn.loc(i),
